@@ -47,31 +47,8 @@ def all_buffers(instruments):
     return out
 
 
-FEATURES = ["log_spot_of_passthrough_pricer", "moneyness", "log_moneyness", "max_moneyness", "max_log_moneyness", "time_to_maturity", "expiry_time",
-            "volatility", "variance", "underlier_spot", "underlier_log_spot", "zeros", "empty", "barrier_up", "barrier_down",
-            "spot", "log_spot", "ones", "module_output"]
-
-
-def make_feature(c, name):
-    from pfhedge import features as Fe
-    from pfhedge.features import get_feature
-    from pfhedge.features.features import Spot, UnderlierSpot, Ones
-
-    if name == "underlier_log_spot":
-        return UnderlierSpot(log=True)
-    if name == "barrier_up":
-        return Fe.Barrier(api.real(c, "B"), up=True)
-    if name == "barrier_down":
-        return Fe.Barrier(api.real(c, "B"), up=False)
-    if name == "spot":
-        return Spot()
-    if name in ("log_spot", "log_spot_of_passthrough_pricer"):
-        return Spot(log=True)
-    if name == "ones":
-        return Ones()
-    if name == "module_output":
-        return Fe.ModuleOutput(cm.UFModel(1, name="G"), inputs=["log_moneyness", "time_to_maturity"])
-    return get_feature(name)
+FEATURES = cm.FEATURES
+make_feature = cm.make_feature
 
 
 def feature_case(fname, N, T, ul_kind="brownian"):
